@@ -57,7 +57,7 @@ ReadTLV ==
                     ELSE /\ stack' = Append(stack, 0) /\ pos' = te + 1 /\ steps' = steps + 1
                          /\ nodes' = Append(nodes, [tag |-> pos, lenoff |-> te, lensz |-> 1, len |-> -1, cons |-> TRUE])
                          /\ UNCHANGED <<inp, item, status>>
-             ELSE IF nlen > 4 \/ te + nlen >= Limit + (IF nlen = 0 THEN 1 ELSE 0) /\ nlen > 0 /\ te + nlen > Len(inp) THEN Fail
+             ELSE IF nlen > 4 THEN Fail
              ELSE IF nlen > 0 /\ te + nlen > Len(inp) THEN Fail
              ELSE LET len == IF nlen = 0 THEN l0
                              ELSE LET F[i \in 0..nlen] == IF i = 0 THEN 0 ELSE F[i - 1] * 256 + inp[te + i] IN F[nlen]
@@ -79,4 +79,5 @@ InBounds == pos \in 1..(Len(inp) + 1)
 NoStuck == status = "run" => ENABLED Next
 Done == status # "run"
 Emit == (Done /\ item # 0) => PrintT(<<"NODES", ToJson([item |-> item, name |-> Corpus[item].name, status |-> status, nodes |-> nodes])>>)
+EmitStr == (Done /\ item = 0) => PrintT(<<"STR", ToJson([s |-> inp, status |-> status])>>)
 =============================================================================
